@@ -25,6 +25,7 @@ func (r Result) String() string { return [...]string{"unsat", "sat", "unknown"}[
 type Solver struct {
 	Cmd       []string
 	TimeoutMs int
+	patient   int // >0 while a retry with a longer limit is running
 	proc      *exec.Cmd
 	in        io.WriteCloser
 	out       *bufio.Reader
@@ -239,6 +240,23 @@ func (s *Solver) readResult() Result {
 
 // Check decides pc ∧ extra (extra may be nil). If wantModel and the result is sat, the model
 // of the store's variables and UF applications is returned.
+// CheckPatient is Check with one retry at factor times the time limit when the first answer
+// is unknown (assertion queries: an unknown there makes the whole check inconclusive).
+func (s *Solver) CheckPatient(st *Store, extra *Term, wantModel bool, factor int) (Result, *Model) {
+	r, m := s.Check(st, extra, wantModel)
+	if r != Unknown || !s.started || factor <= 1 {
+		return r, m
+	}
+	s.send(fmt.Sprintf("(set-option :timeout %d)", s.TimeoutMs*factor))
+	s.patient = factor
+	r, m = s.Check(st, extra, wantModel)
+	s.patient = 0
+	if s.started {
+		s.send(fmt.Sprintf("(set-option :timeout %d)", s.TimeoutMs))
+	}
+	return r, m
+}
+
 func (s *Solver) Check(st *Store, extra *Term, wantModel bool) (Result, *Model) {
 	t0 := time.Now()
 	defer func() { s.Time += time.Since(t0) }()
